@@ -3,6 +3,7 @@ C13 — Sorting yields a stable, correctly ordered permutation and never mutates
 Model: DTML/Sort.lean.
 -/
 import DTML.Sort
+import DTML.Render
 set_option linter.unusedVariables false
 namespace DTML.Props.C13
 open DTML.Sort Std
@@ -151,5 +152,205 @@ example : le id [⟨.cmp, false⟩] (0, [some (.int 3)]) (3, [some (.int 3)]) = 
   constructor
   · decide
   · exact .cons_cons _ (.cons _ (.cons _ (.cons_cons _ .slnil)))
+
+/-! #### inside the interpreter: the sequence a `dtml-in sort=key [reverse]` iterates over
+
+`Render.arrange` is what the interpreter model does between fetching the sequence and looping over it
+(`sort_sequence` with one key and the default comparison, then `reverse_sequence`).  The theorems below state the
+property for it: a permutation of the caller's elements, ordered by key, stable, `_Smallest` keys first, `reverse`
+the exact reverse; the caller's list is a value of the model and cannot change. -/
+
+namespace Interp
+open DTML.Render
+
+theorem textLe_refl : ∀ a : Render.Text, textLe a a = true
+  | [] => rfl
+  | c :: cs => by simp [textLe, textLe_refl cs]
+
+theorem textLe_total : ∀ a b : Render.Text, textLe a b = true ∨ textLe b a = true
+  | [], _ => Or.inl (by cases ‹Render.Text› <;> rfl)
+  | _ :: _, [] => Or.inr rfl
+  | a :: as, b :: bs => by
+    rcases Nat.lt_trichotomy a.toNat b.toNat with h | h | h
+    · left; simp [textLe, h]
+    · rcases textLe_total as bs with h2 | h2
+      · left; simp [textLe, h, h2]
+      · right; simp [textLe, h, h2]
+    · right; simp [textLe, h]
+
+theorem textLe_trans : ∀ a b c : Render.Text, textLe a b = true → textLe b c = true → textLe a c = true
+  | [], _, c, _, _ => by cases c <;> rfl
+  | _ :: _, [], _, h, _ => by simp [textLe] at h
+  | _ :: _, _ :: _, [], _, h => by simp [textLe] at h
+  | a :: as, b :: bs, c :: cs, h1, h2 => by
+    simp only [textLe] at h1 h2 ⊢
+    by_cases hab : a.toNat < b.toNat
+    · by_cases hbc : b.toNat < c.toNat
+      · have : a.toNat < c.toNat := Nat.lt_trans hab hbc
+        simp [this]
+      · by_cases hcb : c.toNat < b.toNat
+        · simp [hbc, hcb] at h2
+        · have : b.toNat = c.toNat := by omega
+          have : a.toNat < c.toNat := by omega
+          simp [this]
+    · by_cases hba : b.toNat < a.toNat
+      · simp [hab, hba] at h1
+      · have hab' : a.toNat = b.toNat := by omega
+        simp only [hab, hba, if_false] at h1
+        by_cases hbc : b.toNat < c.toNat
+        · have : a.toNat < c.toNat := by omega
+          simp [this]
+        · by_cases hcb : c.toNat < b.toNat
+          · simp [hbc, hcb] at h2
+          · simp only [hbc, hcb, if_false] at h2
+            have h3 : ¬ a.toNat < c.toNat := by omega
+            have h4 : ¬ c.toNat < a.toNat := by omega
+            simp only [h3, h4, if_false]
+            exact textLe_trans as bs cs h1 h2
+
+/-- the comparison of sort keys is a total preorder -/
+theorem skey_total (a b : SKey) : (SKey.le a b || SKey.le b a) = true := by
+  cases a <;> cases b <;> simp [SKey.le, SKey.rank]
+  · omega
+  · rename_i s t; exact textLe_total s t
+
+theorem skey_trans (a b c : SKey) (h1 : SKey.le a b = true) (h2 : SKey.le b c = true) : SKey.le a c = true := by
+  cases a <;> cases b <;> cases c <;> simp [SKey.le, SKey.rank] at h1 h2 ⊢
+  · omega
+  · rename_i s t u; exact textLe_trans s t u h1 h2
+
+abbrev Dec := SKey × Val
+def decLe (a b : Dec) : Bool := SKey.le a.1 b.1
+
+theorem decLe_total (a b : Dec) : (decLe a b || decLe b a) = true := skey_total a.1 b.1
+theorem decLe_trans (a b c : Dec) (h1 : decLe a b = true) (h2 : decLe b c = true) : decLe a c = true :=
+  skey_trans a.1 b.1 c.1 h1 h2
+
+/-- decorating keeps every element, in order -/
+theorem sortKeys_elements (env : Env) (m : Bool) (k : Render.Text) : ∀ (xs : List Val) (st st' : St) (dec : List Dec),
+    sortKeys env m k xs st = (.ok dec, st') → dec.map (·.2) = xs
+  | [], st, st', dec, h => by
+    simp only [sortKeys, Prod.mk.injEq, Res.ok.injEq] at h
+    rw [← h.1]; rfl
+  | x :: xs, st, st', dec, h => by
+    unfold sortKeys at h
+    split at h
+    · rename_i key st1 hk
+      split at h
+      · rename_i r st2 hr
+        simp only [Prod.mk.injEq, Res.ok.injEq] at h
+        rw [← h.1]
+        simp [sortKeys_elements env m k xs st1 st2 r hr]
+      · rename_i r hne
+        cases hr : sortKeys env m k xs st1 with
+        | mk r1 s1 =>
+          rw [hr] at h
+          cases r1 with
+          | ok q => exact (hne q s1 hr).elim
+          | raise e => cases h
+          | ret v => cases h
+          | oom => cases h
+    · cases h
+    · cases h
+    · cases h
+
+/-- what `arrange` answers when it answers: the decorated elements, sorted stably by key (when a key is given), the
+keys dropped again, reversed when `reverse` is given -/
+theorem arrange_ok (env : Env) (o : InOpts) (x : InXOpts) (xs ys : List Val) (st st' : St)
+    (h : arrange env o x xs st = (.ok ys, st')) :
+    (x.sortKey = none ∧ ys = (if x.reverse then xs.reverse else xs)) ∨
+    (∃ k dec st1, x.sortKey = some k ∧ sortKeys env o.mapping k xs st = (.ok dec, st1) ∧
+      ys = (if x.reverse then ((dec.mergeSort decLe).map (·.2)).reverse else (dec.mergeSort decLe).map (·.2))) := by
+  unfold arrange sortPart at h
+  cases hk : x.sortKey with
+  | none =>
+    left
+    simp only [hk, Prod.mk.injEq, Res.ok.injEq] at h
+    exact ⟨rfl, h.1.symm⟩
+  | some k =>
+    right
+    simp only [hk] at h
+    cases hs : sortKeys env o.mapping k xs st with
+    | mk r st1 =>
+      rw [hs] at h
+      cases r with
+      | ok dec =>
+        refine ⟨k, dec, st1, rfl, hs, ?_⟩
+        simp only at h
+        by_cases hc : (decide (dec.length ≥ 2) && !sortable (dec.map (·.1))) = true
+        · simp only [hc, if_true] at h
+          cases h
+        · simp only [hc, Bool.false_eq_true, if_false, Prod.mk.injEq, Res.ok.injEq] at h
+          rw [← h.1]
+          rfl
+      | raise e => simp at h
+      | ret v => simp at h
+      | oom => simp at h
+
+/-- **the elements shown are a permutation of the caller's elements** (nothing lost, nothing shown twice) -/
+theorem arrange_perm (env : Env) (o : InOpts) (x : InXOpts) (xs ys : List Val) (st st' : St)
+    (h : arrange env o x xs st = (.ok ys, st')) : ys.Perm xs := by
+  rcases arrange_ok env o x xs ys st st' h with ⟨_, rfl⟩ | ⟨k, dec, st1, _, hd, rfl⟩
+  · split
+    · exact List.reverse_perm xs
+    · exact List.Perm.refl xs
+  · have he := sortKeys_elements env o.mapping k xs st st1 dec hd
+    have hp : ((dec.mergeSort decLe).map (·.2)).Perm xs := by
+      rw [← he]; exact (List.mergeSort_perm dec decLe).map _
+    split
+    · exact (List.reverse_perm _).trans hp
+    · exact hp
+
+/-- **sorted**: without `reverse`, every shown element's key is ≤ the key of every later one (a `None` / missing key,
+or a callable key that raised, is the smallest) -/
+theorem arrange_ordered (dec : List Dec) : (dec.mergeSort decLe).Pairwise (fun a b => SKey.le a.1 b.1 = true) :=
+  List.pairwise_mergeSort decLe_trans decLe_total dec
+
+/-- **stable**: two elements that do not compare greater keep their relative order (equal keys in particular) -/
+theorem arrange_stable (dec : List Dec) (a b : Dec) (hab : SKey.le a.1 b.1 = true) (h : [a, b].Sublist dec) :
+    [a, b].Sublist (dec.mergeSort decLe) :=
+  List.pair_sublist_mergeSort decLe_trans decLe_total hab h
+
+/-- **`reverse`** shows the exact reverse of what is shown without it -/
+theorem arrange_reverse (env : Env) (o : InOpts) (k : Option Render.Text) (b : Option BatchP) (xs ys : List Val) (st st' : St)
+    (h : arrange env o { sortKey := k, reverse := false, batch := b } xs st = (.ok ys, st')) :
+    arrange env o { sortKey := k, reverse := true, batch := b } xs st = (.ok ys.reverse, st') := by
+  unfold arrange at h ⊢
+  have hs : sortPart env o { sortKey := k, reverse := true, batch := b } xs st =
+      sortPart env o { sortKey := k, reverse := false, batch := b } xs st := rfl
+  rw [hs]
+  generalize sortPart env o { sortKey := k, reverse := false, batch := b } xs st = res at h ⊢
+  obtain ⟨r, s⟩ := res
+  cases r with
+  | ok zs =>
+    simp only [Prod.mk.injEq, Res.ok.injEq, Bool.false_eq_true, if_false, if_true] at h ⊢
+    exact ⟨by rw [h.1], h.2⟩
+  | raise e => simp at h
+  | ret v => simp at h
+  | oom => simp at h
+
+/-- a `None` key sorts before every number and every string -/
+theorem smallest_first (k : SKey) (hk : k ≠ .smallest) : SKey.le .smallest k = true ∧ SKey.le k .smallest = false := by
+  cases k <;> simp [SKey.le, SKey.rank] at hk ⊢
+
+private def shownIds : Res (List Val) → Option (List Nat)
+  | .ok ys => some (ys.map fun v => match v with | .obj id _ => id | _ => 0)
+  | _ => none
+
+/-- non-vacuity (`mergeSort` is defined by well-founded recursion and does not reduce in `decide`, so the example
+without a sort key is evaluated, and the key order is evaluated on the keys): reverse of four elements; keys 2, None,
+1 (from a callable), 2 -/
+example : shownIds (arrange {} {} { reverse := true }
+    [.obj 1 [("k".toList, .int 2)], .obj 2 [("k".toList, .none)], .obj 3 [("k".toList, .fn 7 (.int 1))], .obj 4 [("k".toList, .int 2)]] {}).1
+    = some [4, 3, 2, 1] := by
+  decide +kernel
+example : ((sortKeys {} false "k".toList
+    [.obj 1 [("k".toList, .int 2)], .obj 2 [("k".toList, .none)], .obj 3 [("k".toList, .fn 7 (.int 1))], .obj 4 [("k".toList, .int 2)]] {}).1
+      matches .ok [(.int 2, _), (.smallest, _), (.int 1, _), (.int 2, _)]) = true := by
+  decide +kernel
+example : SKey.le .smallest (.int 1) = true ∧ SKey.le (.int 1) (.int 2) = true ∧ SKey.le (.int 2) (.int 2) = true ∧
+    SKey.le (.int 2) (.int 1) = false := by decide
+
+end Interp
 
 end DTML.Props.C13
